@@ -126,7 +126,7 @@ let all_tags = [| "bool"; "err"; "panic"; "idx"; "unit"; "counts"; "row"; "wrow"
 let view_ops = [| "node"; "out"; "in"; "neighbors_edges_mismatch"; "erefs"; "_5"; "_6"; "_7"; "_8"; "_9";
                   "dfs"; "dfs_moveto"; "dfs_reset"; "dfspost"; "bfs"; "topo"; "topo_with_initials"; "dfsvisit"; "dfspost_moveto"; "_19";
                   "connected_components"; "is_cyclic_undirected"; "toposort"; "toposort2"; "is_cyclic_directed"; "has_path";
-                  "kosaraju"; "tarjan"; "bipartite"; "_29";
+                  "kosaraju"; "tarjan"; "bipartite"; "condensation";
                   "dijkstra"; "astar"; "ksp"; "bellman_ford"; "find_negative_cycle"; "spfa"; "floyd_warshall"; "floyd_warshall_path"; "_38"; "_39"; "kruskal"; "prim" |]
 let graph_ops = [| "add_node"; "try_add_node"; "add_edge"; "try_add_edge"; "update_edge"; "try_update_edge";
                    "remove_node"; "remove_edge"; "reverse"; "clear"; "clear_edges"; "retain_nodes"; "retain_edges";
